@@ -218,3 +218,30 @@ Theorem gen_C12_nick_parseModes : forall modes nm,
   = GoBytes.Ok (Some (GenEqModes.nm_tuple (nick_parse_modes modes false nm))).
 Proof. exact GenEqModes.go_nick_parseModes_eq. Qed.
 Print Assumptions gen_C12_nick_parseModes.
+
+(* generated-code tie, stage 4: package state's channel mode parser.  Gen/GoFuncs.v holds the Gallina
+   TRANSLATION of the Go body of channel.parseModes (state/channel.go): ch.modes as an option of the
+   tuple (ten booleans, Key, Limit), the maps ch.lookup / ch.nicks as ABSTRACT STORES (a get; for
+   ch.nicks also the write through the pointer read from it), *nick as an abstract reference,
+   strconv.Atoi as a variable.  Instantiated with the spec's membership map for the channel c
+   (GenEqChanModes.Lget/Nget/Nset: a reference is the nick's name; get-after-set laws below) and
+   the spec's atoi, it is equal to chan_parse_modes started with modeop = false — flags, +k/+l with
+   their argument, b/e/I, q/a/o/h/v for members and non-members, unknown letters — for every mode
+   string and argument list; it never panics (Proofs/GenEqChanModes.v). *)
+From Verif Require GenEqChanModes.
+Theorem gen_C12_channel_parseModes : forall c L cm cname mem modes args,
+  (forall x, is_Some (L !! (c, x)) <-> is_Some (mem !! (c, x))) ->
+  GoFuncs.go_state_channel_parseModes (GenEqChanModes.Lget c) (GenEqChanModes.Nget c)
+    (GenEqChanModes.Nset c) GenEqChanModes.atoi' L (Some (GenEqChanModes.cm_tuple cm)) cname mem modes args
+  = GoBytes.Ok (Some (GenEqChanModes.cm_tuple (fst (chan_parse_modes c modes false args cm mem))),
+                snd (chan_parse_modes c modes false args cm mem)).
+Proof. exact GenEqChanModes.go_channel_parseModes_eq. Qed.
+Theorem gen_C12_member_store_laws : forall c N n n' v,
+  GenEqChanModes.Nget c (GenEqChanModes.Nset c N (Some n) v) (Some n) = Some v
+  /\ (n <> n' -> GenEqChanModes.Nget c (GenEqChanModes.Nset c N (Some n) v) (Some n')
+                 = GenEqChanModes.Nget c N (Some n')).
+Proof.
+  intros c N n n' v. split; [apply GenEqChanModes.Nget_Nset_same | apply GenEqChanModes.Nget_Nset_other].
+Qed.
+Print Assumptions gen_C12_channel_parseModes.
+Print Assumptions gen_C12_member_store_laws.
